@@ -41,7 +41,7 @@ func DecodeFloat64(b []byte) (float64, int, error) {
 
 	v, n := decodeFloat64(b)
 	if n < 0 {
-		return 0, n, errors.New("decode float64: invalid data")
+		return 0, 0, errors.New("decode float64: invalid data")
 	}
 
 	size := n
